@@ -135,6 +135,11 @@ func VerifC10(maxEvents, withWorkload int) {
 	}
 	vAssert(err == nil && resp == protoreflect.ProtoMessage(stamp), "C10.probe-wrong-result")
 	// metadata on every stream ever created
+	if w.net.libraryDialOpts {
+		// the library passes dial options of its own (interceptors, credentials, ...): what
+		// they add to a connection is behind the puppet transport - not decidable here
+		vAssume(false)
+	}
 	vAssert(len(p.wireCtxMD) > 0, "C10.no-stream")
 	for _, md := range p.wireCtxMD {
 		g := md.Get("verif-general")
